@@ -168,7 +168,7 @@ impl<'a, 'b> Mul<&'b Value> for &'a Value {
     fn mul(self, other: &Value) -> Result<Value, String> {
         match (self, other) {
             (&Value::Number(ref left), &Value::Number(ref right)) => (left * right)
-                .ok_or_else(|| "Bug: Mul should not fail".to_string())
+                .ok_or_else(|| "Dimension exponents are too large".to_string())
                 .map(Value::Number),
             (&Value::Number(ref co), &Value::Substance(ref sub))
             | (&Value::Substance(ref sub), &Value::Number(ref co)) => {
